@@ -43,7 +43,7 @@ DATA_KID = {"tx": 0, "cat": 1, "val": 2, "xVal": 3, "yVal": 4, "bubbleSize": 5}
 
 TB = [
     "a number is carried through the model as the text str() gives for it; float(repr(x)) == x and the float() / str() / '%.1f' of CPython are trusted, numbers are compared as exact rationals of float(text)",
-    "lxml/libxml2: parsing of the text templates (entity expansion, CR/LF normalisation as in Definition xml_norm), xpath, deepcopy, addnext, addprevious, remove, serialisation",
+    "lxml/libxml2: parsing of the text templates (entity and character-reference expansion; the writers escape markup characters and carriage returns, so the parsed text is the caller's), xpath, deepcopy, addnext, addprevious, remove, serialisation",
     "datetime.date arithmetic (the model uses lib/Calendar.v ordinal; tied by the correspondence on dates from 1899 to 9999)",
     "the skeleton extraction, payload hashing (exclusive c14n + sha1) and canonicalisation in checks/c07.py",
     "ISO-IEC-29500-4 dml-chart.xsd compiled by libxml2 is the oracle of validity; mc:AlternateContent is resolved to its mc:Fallback before validation (markup-compatibility preprocessing)",
@@ -753,7 +753,7 @@ def oracle_state(ck, ctx, data, root, reads, d1904, pie_write, baseline_xsd):
 
 
 QUIRK_TEXT = {
-    "cr-in-string-becomes-lf": "a carriage return in a series name or category label comes back as a line feed (the writers paste text into an XML template; saxutils.escape leaves CR alone and the parser normalises it)",
+    "cr-in-string-becomes-lf": "a carriage return in a series name, category label or number format comes back as a line feed (raw CR in the XML template is normalised by the parser; fixed in d4e5a870, the signature stays as a regression guard)",
     "empty-category-label-reads-None": "a category whose label is the empty string (or None) is reported as the string 'None' (category.Category.__new__: pt.v.text is None for an empty c:v and str.__new__(cls, None) is 'None'; fixed in fc4e9fce, the signature stays as a regression guard)",
     "pie-writer-keeps-first-series-only": "a pie chart created from chart data with several series contains the first series only (_PieChartXmlWriter._ser_xml uses self._chart_data[0]); the other series are dropped without an error",
 }
@@ -858,7 +858,7 @@ def oracle_replace(before, after, n_new):
 
 # ------------------------------------------------------------------ generators
 STRS = ["a", "Q1 2020", "East & West", "<b>", 'say "hi"', "it's", " lead", "trail ", "tab\there", "two\nlines",
-        "été", "日本", "\U0001F600", "x" * 40, "0", "None", " ", "1.5", "]]>", "&amp;", "A/B", "100%"]
+        "été", "日本", "\U0001F600", "x" * 40, "0", "None", " ", "1.5", "]]>", "&amp;", "A/B", "100%", "cr\rhere", "crlf\r\nhere", "\r"]
 FMTS = ["General", "0.00", "#,##0", "0.0%", "yyyy\\-mm\\-dd", "mm/dd/yyyy", '"$"#,##0.00', "[Red]0.0;[Blue]-0.0", "0.0E+00",
         "[<100]0;[>=100]0.0", '#,##0 "R&D"', '0.0 "<"', "d\" days\"", "&amp;0"]
 DATES = [(1900, 1, 1), (1900, 2, 27), (1900, 2, 28), (1900, 3, 1), (1900, 3, 2), (1904, 1, 1), (1904, 1, 2), (1903, 12, 31),
@@ -1046,6 +1046,7 @@ def gen_cases(tier, rng, types):
         d = g_cat_data(rng, {"nser": 2, "ncat": 3})
         d["cats"][k % 3][0] = ["s", ["a\rb", "a\r\nb", "\r"][k % 3]]
         d["sers"][0][0] = "n\rm"
+        d["sers"][0][1] = '0 "a\rb"'
         cases.append({"class": "carriage-return", "init": ["W", ct, d], "ops": []})
         d = g_cat_data(rng, {"nser": 1, "cats": "date"})
         d["fmt"] = ['"$"0', 'd" days"', 'yy"-"mm'][k % 3]
@@ -1250,7 +1251,7 @@ def replay(rec):
 
 CLAIM = {
     "tech": "Coq proof over a Gallina model of the chart writers, the readers and replace_data as a state machine (all chart data, all category forests, all replace_data histories, arbitrary successor declarations) + extracted-model correspondence on real charts of every writable type and of the .pptx corpus + independent oracle on the XML and the read API incl. XSD validation",
-    "text": "24 theorems and 6 examples closed under the global context: series names, values (None positions, empty series), X values and bubble sizes read back as supplied; categories read back at every level, flattened_labels = root-to-leaf paths for ragged forests of any depth (level idx = first-leaf offset), numbers as Python's text, dates as the Excel serial (1900 leap-year quirk and 1904 system); c:idx / c:order unique after any sequence of replace_data (fold over operations); replace_data reports the new names, values and categories, keeps idx, order and every non-data child of surviving series, the date system and everything outside the xChart elements, removes exactly the last series of plotArea.sers and exactly the plots left without any. number formats are kept as given and never make a writer fail. Where the model refutes the statement the witness is proved and replayed: pie writer keeps one series, carriage return becomes line feed, replace_data fails on charts without series or without plots (two earlier refutations, empty label read as 'None' and a double quote in a date number format, were fixed in python-pptx and are now regression examples). The model is tied to chart/xmlwriter.py, data.py, category.py, series.py, plot.py and oxml/chart by ~700 (quick) / ~8300 (thorough) histories on all 29 chart types (list read off ChartXmlWriter) and the 95 corpus charts, comparing the skeleton re-read from ChartPart.blob and the read API state by state.",
+    "text": "22 theorems and 7 examples closed under the global context: series names, values (None positions, empty series), X values and bubble sizes read back as supplied; categories read back at every level, flattened_labels = root-to-leaf paths for ragged forests of any depth (level idx = first-leaf offset), numbers as Python's text, dates as the Excel serial (1900 leap-year quirk and 1904 system); c:idx / c:order unique after any sequence of replace_data (fold over operations); replace_data reports the new names, values and categories, keeps idx, order and every non-data child of surviving series, the date system and everything outside the xChart elements, removes exactly the last series of plotArea.sers and exactly the plots left without any. names, labels and number formats come back verbatim for every string (empty, markup characters, carriage returns) and never make a writer fail. Where the model refutes the statement the witness is proved and replayed: pie writer keeps one series, replace_data fails on charts without series or without plots (three earlier refutations -- empty label read as 'None', a double quote in a date number format, carriage return read as line feed -- were fixed in python-pptx and are now regression examples). The model is tied to chart/xmlwriter.py, data.py, category.py, series.py, plot.py and oxml/chart by ~700 (quick) / ~8300 (thorough) histories on all 29 chart types (list read off ChartXmlWriter) and the 95 corpus charts, comparing the skeleton re-read from ChartPart.blob and the read API state by state.",
     "note": "numbers travel as the text str() gives and are compared as exact rationals of float(text); c:f references and the workbook are C08's, non-XML characters C05's; validity is judged by libxml2 on dml-chart.xsd after resolving mc:AlternateContent; formatting children and everything outside c:ser are opaque content hashes.",
     "ref": "6/C07",
 }
